@@ -3,6 +3,9 @@
   The harness (`pvh`) runs the real crate on the same request lines; `check` diffs the replies.
 -/
 import Model.Parser
+import Model.Site
+import Model.Basis
+import Model.Rand
 import Generated.Tables
 import Driver.Util
 
@@ -13,8 +16,195 @@ def parseErrStr : ParseErr → String
   | .tooMany => "err tooMany"
   | .invalid c => s!"err invalid {c.toNat}"
 
+def famOfString : String → Option Family
+  | "Monoclinic" => some .Monoclinic | "Orthorhombic" => some .Orthorhombic
+  | "Hexagonal" => some .Hexagonal | "Tetragonal" => some .Tetragonal | _ => none
+
+def pCell : P (Cell Float) := do
+  let l ← pF; let r ← pF; let a ← pF
+  match famOfString (← tok) with
+  | some f => pure ⟨l, r, a, f⟩
+  | none => failure
+
+def pSite : P (Site Float) := do
+  let ops ← pList pMat
+  let x ← pF; let y ← pF; let a ← pF
+  pure ⟨ops, x, y, a⟩
+
+def run {β : Type} (p : P β) (ts : List String) : Option β := (p.run ts).map (·.1)
+
+/-- a finite double can be injected through JSON; a non-finite one cannot (`err inject`) -/
+def finite (x : Float) : Bool := x.isFinite
+
+def cellFinite (c : Cell Float) : Bool := finite c.length && finite c.ratio && finite c.angle
+
+def hex16 (n : Nat) : String :=
+  String.ofList ((List.range 16).map fun i => hexDigit ((n / 16 ^ (15 - i)) % 16))
+
+def negInf : Float := -(1.0 / 0.0)
+def posInf : Float := 1.0 / 0.0
+
+/-- observe handles the way the harness does: value, clamp of -inf, clamp of +inf -/
+def basisHex (heap : Array Float) (hs : List (Handle Float)) : String :=
+  let parts := hs.map fun h =>
+    let v := h.getValue heap
+    let (h1, heap1) := h.setValue heap negInf
+    let lo := h1.getValue heap1
+    let (h2, heap2) := h1.setValue heap1 posInf
+    let hi := h2.getValue heap2
+    s!" {fhex v} {fhex lo} {fhex hi}"
+  s!"{hs.length}" ++ String.join parts
+
+partial def rngRaw (g : Rand.Pcg) (n : Nat) (acc : String) : String :=
+  if n == 0 then acc else
+    let (v, g) := g.next
+    rngRaw g (n - 1) (acc ++ " " ++ hex16 v)
+
+def execRng (op : String) (ts : List String) : Option String :=
+  run (do
+    let seed ← pNat; let n ← pNat
+    let g := Rand.seedFromU64 seed
+    match op with
+    | "raw" => pure (rngRaw g n "ok")
+    | "index" => do
+      let m ← pNat
+      let r := (List.range n).foldl (fun (acc : String × Rand.Pcg) _ =>
+        let (v, g) := Rand.sampleIndex m acc.2
+        (acc.1 ++ s!" {v}", g)) ("ok", g)
+      pure r.1
+    | "range" =>
+      let r := (List.range n).foldl (fun (acc : String × Rand.Pcg) _ =>
+        let (v, g) := acc.2.next
+        (acc.1 ++ " " ++ fhex (Rand.genRangeHalf v), g)) ("ok", g)
+      pure r.1
+    | "unit" =>
+      let r := (List.range n).foldl (fun (acc : String × Rand.Pcg) _ =>
+        let (v, g) := acc.2.next
+        (acc.1 ++ " " ++ fhex (Rand.genUnit v), g)) ("ok", g)
+      pure r.1
+    | "mixed" => do
+      let m ← pNat
+      let r := (List.range n).foldl (fun (acc : String × Rand.Pcg) _ =>
+        let (i, g) := Rand.sampleIndex m acc.2
+        let (v, g) := g.next
+        let (u, g) := g.next
+        (acc.1 ++ s!" {i} {fhex (Rand.genRangeHalf v)} {fhex (Rand.genUnit u)}", g)) ("ok", g)
+      pure r.1
+    | _ => failure) ts
+
+/-- `basis seq …`: a sequence of set/reset/get/sample/setsampled on handles over one heap -/
+def execBasisSeq (ts : List String) : Option String :=
+  run (do
+    let cells ← pList pF
+    let hspecs ← pList (do let a ← pNat; let lo ← pF; let hi ← pF; pure (a, lo, hi))
+    let heap0 : Array Float := cells.toArray
+    if hspecs.any (fun (a, _, _) => a ≥ heap0.size) then failure
+    let hs0 : Array (Handle Float) := (hspecs.map fun (a, lo, hi) => Handle.new heap0 a lo hi).toArray
+    let nops ← pNat
+    let rec go : Nat → Array Float → Array (Handle Float) → String → P String
+      | 0, _, _, out => pure out
+      | k + 1, heap, hs, out => do
+        let op ← tok
+        let hi ← pNat
+        match hs[hi]? with
+        | none => failure
+        | some h =>
+          let dump (heap : Array Float) : String := String.join (heap.toList.map fun x => " " ++ fhex x) ++ " |"
+          match op with
+          | "set" => do
+            let v ← pF
+            let (h', heap') := h.setValue heap v
+            go k heap' (hs.set! hi h') (out ++ dump heap')
+          | "reset" =>
+            let heap' := h.resetValue heap
+            go k heap' hs (out ++ dump heap')
+          | "get" => go k heap hs (out ++ " g" ++ fhex (h.getValue heap) ++ dump heap)
+          | "sample" => do
+            let step ← pF
+            match parseHexNat (← tok) with
+            | none => failure
+            | some raw =>
+              go k heap hs (out ++ " s" ++ fhex (h.sample heap step (Rand.genRangeHalf raw)) ++ dump heap)
+          | "setsampled" => do
+            let step ← pF
+            match parseHexNat (← tok) with
+            | none => failure
+            | some raw =>
+              let (h', heap') := h.setSampled heap step (Rand.genRangeHalf raw)
+              go k heap' (hs.set! hi h') (out ++ dump heap')
+          | _ => failure
+    go nops heap0 hs0 "ok") ts
+
+def execMat (op : String) (ts : List String) : Option String :=
+  match op with
+  | "mul" => run (do let a ← pMat; let b ← pMat; pure ("ok " ++ matHex (a.mul b))) ts
+  | "apply" => run (do let a ← pMat; let x ← pF; let y ← pF; pure ("ok " ++ ptHex (a.apply ⟨x, y⟩))) ts
+  | "new" => run (do let r ← pF; let x ← pF; let y ← pF; pure ("ok " ++ matHex (Mat3.new r x y))) ts
+  | "position" => run (do let a ← pMat; pure ("ok " ++ ptHex a.position)) ts
+  | "periodic" => run (do let a ← pMat; let p ← pF; let o ← pF; pure ("ok " ++ matHex (a.periodic p o))) ts
+  | _ => none
+
+def execCell (op : String) (ts : List String) : Option String :=
+  if op == "fromfamily" then
+    run (do
+      let f ← tok
+      let len ← pF
+      match famOfString f with
+      | some fam =>
+        let c := Cell.fromFamily (α := Float) fam len
+        pure s!"ok {fhex c.length} {fhex c.ratio} {fhex c.angle} {c.family.name}"
+      | none => failure) ts
+  else
+    run (do
+      let c ← pCell
+      if !cellFinite c then return "err inject"
+      match op with
+      | "cart" => do
+        let x ← pF; let y ← pF
+        let r := c.toCartesian x y
+        pure s!"ok {fhex r.1} {fhex r.2}"
+      | "area" => pure ("ok " ++ fhex c.area)
+      | "ab" => pure s!"ok {fhex c.a} {fhex c.b} {fhex c.angle}"
+      | "center" => pure ("ok " ++ ptHex c.center)
+      | "corners" => pure ("ok " ++ " ".intercalate (c.corners.map ptHex))
+      | "iso" => do let m ← pMat; pure ("ok " ++ matHex (c.toCartesianIsometry m))
+      | "dof" =>
+        let heap : Array Float := #[c.length, c.ratio, c.angle]
+        pure ("ok " ++ basisHex heap (cellHandles heap c.family))
+      | "images" => do
+        let m ← pMat; let k ← pInt; let z ← tok
+        pure ("ok " ++ matsHex (c.periodicImages m k (z == "1")))
+      | _ => failure) ts
+
+def execSite (op : String) (ts : List String) : Option String :=
+  match op with
+  | "fromwyckoff" => run (do
+      let ops ← pList pMat
+      let s := Site.fromWyckoff (α := Float) ops
+      pure s!"ok {fhex s.x} {fhex s.y} {fhex s.angle} {s.multiplicity}") ts
+  | "positions" => run (do
+      let s ← pSite
+      if !(finite s.x && finite s.y && finite s.angle) then return "err inject"
+      pure ("ok " ++ matsHex s.positions)) ts
+  | "transform" => run (do let s ← pSite; pure ("ok " ++ matHex s.transform)) ts
+  | "basis" => run (do
+      let s ← pSite
+      let rot ← pNat
+      let heap : Array Float := #[0.0, 0.0, 0.0, s.x, s.y, s.angle]
+      pure ("ok " ++ basisHex heap (siteHandles heap 3 rot))) ts
+  | _ => none
+
 def execToks (t : List String) : Option String :=
   match t with
+  | "mat" :: op :: ts => execMat op ts
+  | "cell" :: op :: ts => execCell op ts
+  | "site" :: op :: ts => execSite op ts
+  | "rng" :: op :: ts => execRng op ts
+  | "basis" :: "seq" :: ts => execBasisSeq ts
+  | "wrap" :: "xy" :: ts => run (do
+      let p ← pF; let o ← pF; let x ← pF; let y ← pF
+      let t := (Mat3.new (α := Float) 0.0 x y).periodic p o
+      pure ("ok " ++ ptHex t.position)) ts
   | ["parse", "ops", h] => do
     let s ← unshex h
     match fromOperations (α := Float) s.toList with
